@@ -10,7 +10,10 @@ import (
 	"os"
 	"path/filepath"
 	"reflect"
+	"sort"
+	"strconv"
 	"strings"
+	"unicode"
 
 	"verif/engine/sym"
 	"verif/engine/vrt"
@@ -80,6 +83,25 @@ func configureEngine(e *sym.Engine) {
 	e.Natives["go/ast.IsExported"] = ast.IsExported
 	e.Natives["go/ast.Inspect"] = ast.Inspect
 	e.Natives["golang.org/x/tools/go/ast/astutil.PathEnclosingInterval"] = astutil.PathEnclosingInterval
+	// pure standard-library helpers, called natively on concrete arguments (a symbolic argument is refused)
+	for name, f := range map[string]interface{}{
+		"path/filepath.Base": filepath.Base, "path/filepath.Dir": filepath.Dir, "path/filepath.Ext": filepath.Ext,
+		"path/filepath.Clean": filepath.Clean, "path/filepath.Join": filepath.Join, "path/filepath.IsAbs": filepath.IsAbs,
+		"path/filepath.Abs": filepath.Abs, "path/filepath.Rel": filepath.Rel, "path/filepath.Split": filepath.Split,
+		"path/filepath.ToSlash": filepath.ToSlash, "path/filepath.FromSlash": filepath.FromSlash,
+		"strconv.Atoi": strconv.Atoi, "strconv.Quote": strconv.Quote, "strconv.Unquote": strconv.Unquote,
+		"strconv.FormatInt": strconv.FormatInt, "strconv.ParseBool": strconv.ParseBool, "strconv.ParseUint": strconv.ParseUint,
+		"unicode.IsUpper": unicode.IsUpper, "unicode.IsLower": unicode.IsLower, "unicode.ToUpper": unicode.ToUpper,
+		"unicode.ToLower": unicode.ToLower, "unicode.IsSpace": unicode.IsSpace, "unicode.IsPunct": unicode.IsPunct,
+		"sort.Strings": sort.Strings, "sort.Ints": sort.Ints,
+		"go/token.IsExported": token.IsExported, "go/token.IsIdentifier": token.IsIdentifier, "go/token.IsKeyword": token.IsKeyword,
+		"go/types.ExprString": types.ExprString, "go/types.ObjectString": types.ObjectString, "go/types.Implements": types.Implements,
+		"go/types.IdenticalIgnoreTags": types.IdenticalIgnoreTags, "go/types.Default": types.Default, "go/types.IsInterface": types.IsInterface,
+		"go/types.NewSlice": types.NewSlice, "go/types.AssertableTo": types.AssertableTo, "go/types.Comparable": types.Comparable,
+		"go/ast.NewIdent": ast.NewIdent, "go/ast.Walk": ast.Walk, "go/ast.FilterDecl": ast.FilterDecl,
+	} {
+		e.Natives[name] = f
+	}
 	e.Whitelist["path.Ext"] = true
 	sym.TModeStubs(e.Stubs)
 	e.SkeletonRoot = filepath.Join(verifDir, "skeletons")
